@@ -97,8 +97,9 @@ WmscAdvertised(g, box, n) ==
   LET r == Res(g, TmsLevel(g, n)) IN
   {<<x, y, n>> : x \in 0 .. CeilDiv(box[3] - box[1], g.tw * r) - 1, y \in 0 .. CeilDiv(box[4] - box[2], g.th * r) - 1}
 ServedWMSC(g, box, a) ==
-  LET c == ClientTMS(<<box[1], box[2]>>, g, a) IN
-  IF \E t \in InGridTiles(g, TmsLevel(g, a[3])) : TileBBox(g, t) = c THEN c ELSE NoRect
+  IF TmsLevel(g, a[3]) \notin Levels(g) THEN NoRect          \* (a resolution the grid does not have)
+  ELSE LET c == ClientTMS(<<box[1], box[2]>>, g, a) IN
+       IF \E t \in InGridTiles(g, TmsLevel(g, a[3])) : TileBBox(g, t) = c THEN c ELSE NoRect
 WmscConsistent(g, box) == \A n \in TmsOrders(g) : \A a \in WmscAdvertised(g, box, n) : ServedWMSC(g, box, a) # NoRect
 \* characterisation: the corner of the BoundingBox lies on a tile corner of every level
 WmscExpect(g, box) ==
